@@ -75,4 +75,45 @@ def badWitness (d : DistInst) : Bool :=
 def dinstOk (d : DistInst) : Bool :=
   paramsOk d && (if d.knownBad then badWitness d else distOk d) && cyclicOk d
 
+/-! ## information-set bound: distances of codes too large to enumerate
+
+For an information set `pos` (k distinct coordinates on which the generator matrix is invertible, inverse `M`) every codeword
+is `encode G' u` with `u` its restriction to `pos` and `G' = M·G`; a codeword is at least as heavy as its restriction, so only
+the `u` of weight below the advertised distance have to be enumerated. -/
+
+/-- `x` has at least `d` ones: clear the highest set bit `d` times -/
+def geW : Nat → Nat → Bool
+  | 0, _ => true
+  | d+1, x => x != 0 && geW d (x % 2 ^ x.log2)
+
+/-- every combination of at most `b` further rows (non-empty, counting `ne`) added to `acc` has at least `d` ones -/
+def allGe (d : Nat) : List Nat → Nat → Bool → Nat → Bool
+  | [], acc, ne, _ => !ne || geW d acc
+  | r :: rs, acc, ne, b => allGe d rs acc ne b && (b == 0 || allGe d rs (acc ^^^ r) true (b - 1))
+
+/-- restriction of a word to the coordinates `pos` -/
+def proj (pos : List Nat) (x : Nat) : Nat := maskOf (pos.map x.testBit)
+
+/-- number of ones among the `len` bits of `u` starting at bit `i` -/
+def bitsSet : Nat → Nat → Nat → Nat
+  | 0, _, _ => 0
+  | len+1, i, u => (if u.testBit i then 1 else 0) + bitsSet len (i + 1) u
+
+structure InfoInst where
+  name : String
+  n : Nat
+  k : Nat
+  G : List Nat
+  advD : Nat
+  pos : List Nat    -- information set: k distinct coordinates
+  M : List Nat      -- k masks of k bits, (G restricted to pos) · M = I
+  even : Bool       -- every generator row has even weight and advD is even
+
+def infoOk (c : InfoInst) : Bool :=
+  c.G.length == c.k && c.pos.length == c.k && c.M.length == c.k && c.pos.all (· < c.n) && decide c.pos.Nodup &&
+  c.G.all (· < 2 ^ c.n) && unitRows (c.G.map (proj c.pos)) c.M &&
+  (if c.even then c.G.all (fun g => weight c.n g % 2 == 0) && c.advD % 2 == 0 && decide (2 ≤ c.advD) &&
+      allGe (c.advD - 1) (c.M.map (encode c.G)) 0 false (c.advD - 2)
+   else allGe c.advD (c.M.map (encode c.G)) 0 false (c.advD - 1))
+
 end Kaira.Dist
